@@ -158,6 +158,12 @@ pub fn fixed_cases() -> Vec<Case> {
         s.chunk_size = ch;
         push("fixed-huge-steps", b"abc def ghi jkl".to_vec(), s);
     }
+    {
+        let mut s = d.clone();
+        s.include_encodings = vec!["windows-1251".into(), "koi8-r".into()];
+        s.exclude_encodings = vec!["cp1251".into(), "KOI8-R".into()];
+        push("fixed-include-all-excluded", b"\xcf\xf0\xe8\xe2\xe5\xf2 \xec\xe8\xf0, \xea\xe0\xea \xe4\xe5\xeb\xe0 \xf3 \xf2\xe5\xe1\xff".to_vec(), s);
+    }
     push("fixed-declared-wrong", b"<meta charset=utf-16le>\xcf\xf0\xe8\xe2\xe5\xf2 \xec\xe8\xf0, \xea\xe0\xea \xe4\xe5\xeb\xe0".to_vec(), d.clone());
     v
 }
@@ -259,6 +265,14 @@ pub fn run(o: &DetectOpts) -> serde_json::Value {
                     let l = rng.pick(LABEL_POOL).to_string();
                     if rng.chance(2, 3) { c.settings.include_encodings.push(l) } else { c.settings.exclude_encodings.push(l) }
                 }
+                if rng.chance(1, 8) && !c.settings.include_encodings.is_empty() {
+                    // every included encoding is excluded as well (in another spelling when there is one): nothing is allowed
+                    let inc = c.settings.include_encodings.clone();
+                    for l in inc {
+                        let canon = charset_normalizer_rs::utils::iana_name(&l).map(|x| x.to_string()).unwrap_or(l.clone());
+                        c.settings.exclude_encodings.push(if rng.chance(1, 2) { canon.to_uppercase() } else { format!(" {} ", l) });
+                    }
+                }
                 if rng.chance(1, 5) {
                     let bad = rng.pick(BAD_LABELS).to_string();
                     if rng.chance(1, 2) { c.settings.include_encodings.push(bad) } else { c.settings.exclude_encodings.push(bad) }
@@ -297,12 +311,14 @@ pub fn run(o: &DetectOpts) -> serde_json::Value {
                 c.settings.threshold = ordered_float::OrderedFloat(*rng.pick(&[0.2f32, 0.2, 0.3, 0.5, 1.0]));
                 c.settings.preemptive_behaviour = !rng.chance(1, 5);
             }
-            if (o.focus == "C06" || o.focus == "C09") && rng.chance(1, 6) {
+            if (o.focus == "C06" || o.focus == "C09" || o.focus == "C07") && rng.chance(1, 6) {
                 // BOTH hints at once and they disagree: a mark, then a declaration of ANOTHER encoding, then a body both can
                 // read (ASCII, sometimes with a few characters of the declared page): the order declaration > mark > ascii > utf-8
                 let ms = marks();
                 let (menc, m) = *rng.pick(&ms);
                 let denc = *rng.pick(&["windows-1252", "iso-8859-15", "latin1", "koi8-r", "windows-1251", "utf-8", "iso-8859-7", "ascii", "cp1254"]);
+                // (one case in three: the declaration names the mark's OWN encoding)
+                let denc = if rng.chance(1, 3) { menc } else { denc };
                 let kw = *rng.pick(&["charset=", "encoding=\"", "coding: "]);
                 let mut b = m.to_vec();
                 let mut text = format!("<?xml version=\"1.0\" {}{}\"?> ", kw, denc);
@@ -448,7 +464,13 @@ pub fn run(o: &DetectOpts) -> serde_json::Value {
                     s.steps = rng.range(1, 12);
                     s.chunk_size = rng.range(16, 2048);
                 }
+                let mut b = b;
                 if o.focus == "C13" {
+                    // mess in the second half only (7-bit symbols, valid in every code page): a verdict that looks at a prefix
+                    // differs from one that looks at everything
+                    let from = b.len() / 2 + 50_000;
+                    let mut i = from;
+                    while i < b.len() { b[i] = *rng.pick(&[b'|', b'~', b'^', b'{', b'}', b'#', b'<', b'>']); i += rng.range(2, 9); }
                     // a window that covers the whole input: every character is to be analysed, in lazy mode as well
                     s.chunk_size = *rng.pick(&[1024usize, 4096, 65536]);
                     s.steps = b.len() / s.chunk_size + 1 + rng.below(3);
